@@ -311,11 +311,36 @@ def _only_category_tests(fm, pred):
     return all(a in known or a.startswith(f'{seqs.ELT}.category == ') or a.endswith(f' == {seqs.ELT}.category') for a in G.atoms_of(fm))
 
 
+def check_no_extra_subtoken_filters(ctx, rule):
+    nrt = ctx.prog.func(f'{N.TOKENS}.NoteRestToken.export')
+    # the same through the element-wise export model, which composes ALL the filters a list passes before it is joined (a second
+    # comprehension over the already filtered list, a filter after the sort): besides the predicate only tests of the element's
+    # category may take part - a test on the element's text or on what the OTHER list holds removes selected material
+    from . import export_model as EM
+    srcs_ = ['self.pitch_duration_subtokens', 'self.decoration_subtokens']
+    kw_ = nrt.node.args.kwarg.arg if nrt.node.args.kwarg else 'kwargs'
+    known_ = {f"{kw_}.get('filter_categories') is None", f"{kw_}.get('filter_categories')({EM.ELT}.category)"}
+    extra_seen = set()
+    for ep in EM.export_paths(ctx, nrt, srcs_):
+        for j in ep.joins():
+            for a_ in G.atoms_of(j.seq.filter()):
+                if a_ in known_ or a_.startswith(f'{EM.ELT}.category == ') or a_.endswith(f' == {EM.ELT}.category') \
+                        or a_.startswith(f'{EM.ELT}.category in ') or f'{EM.ELT}.category' in a_ and 'encoding' not in a_:
+                    continue
+                extra_seen.add((j.seq.source.rpartition('.')[2], a_))
+    for lst_, a_ in sorted(extra_seen):
+        ctx.violation(rule, nrt.loc, nrt.qualname, f'subtoken-extra-filter:{lst_}',
+                      f'before it is written, {lst_} is filtered once more by `{a_[:90]}`: a sub-token whose category is selected is dropped '
+                      f'(or kept) depending on its text / on what is left of the other list, so the filtered export is not the unfiltered one '
+                      f'with the unselected parts deleted')
+
+
 def r5_subtoken_filter(ctx):
     nrt = ctx.prog.func(f'{N.TOKENS}.NoteRestToken.export')
     for lst in ('pitch_duration_subtokens', 'decoration_subtokens'):
         filtered_element_wise(ctx, 'R5', nrt, lst, f'subtoken-filter:{lst}',
                               f'every element of {lst} is kept iff no predicate is given or predicate(category) holds (whole list, no slice)')
+    check_no_extra_subtoken_filters(ctx, 'R5')
     ct = ctx.prog.func(f'{N.TOKENS}.CompoundToken.export')
     filtered_element_wise(ctx, 'R5', ct, 'subtokens', 'subtoken-filter:compound',
                           'CompoundToken.export keeps a sub-token iff no predicate is given or predicate(category) holds')
